@@ -346,6 +346,10 @@ func (ex *Explorer) runPath(w *worker, prefix []decision) {
 		w.inc.Close()
 		w.inc, _ = NewSolver(solverBin)
 	}
+	if w.one != nil && w.one.dead {
+		w.one.Close()
+		w.one, _ = NewSolver(solverBin)
+	}
 	w.inc.Send("(push 1)\n")
 	if ex.cfg.Race {
 		p.race = &raceState{cells: map[interface{}]*cellShadow{}, sync: map[interface{}]vclock{}}
